@@ -151,9 +151,11 @@ Definition check (fx2 fx5 : bool) (c : case) : verdict :=
     let tbl := flat_routes 0 (c_rules c) in
     let rows := map (fun o =>
                   let '(mout, mcalls) := serve fx2 fx5 eng es t (ro_req o) in
+                  let ok := req_prop eng tbl o in
                   (outcome_eqb mout (ro_out o) && list_eqb call_eqb mcalls (ro_calls o),
-                   req_prop eng tbl o,
-                   g_req fx2 fx5 eng es t tbl (ro_req o) mcalls mout)) (c_reqs c) in
+                   ok,
+                   (* guards are only needed (and only computed) for a request whose property fails *)
+                   if ok then [] else g_req fx2 fx5 eng es t tbl (ro_req o) mcalls mout)) (c_reqs c) in
     let failing := filter (fun r => negb (snd (fst r))) rows in
     {| v_corr := loadobs_eqb (c_load c) OLoaded && forallb (fun r => fst (fst r)) rows;
        v_prop := is_nil failing;
